@@ -111,6 +111,15 @@ def p_int_and_float(i, x):
     return x * i.astype(x.dtype) + jnp.sum(i).astype(x.dtype)
 
 
+@onnx_function
+def f_dtype_specific(x):
+    return x * 3 + 2
+
+
+def p_dtype_specific(x):
+    return x * 3 + 2
+
+
 # ---- callable classes with state -----------------------------------------------
 
 
@@ -154,6 +163,33 @@ class DNnxBlock(_NnxBlockBase):
 
 
 class PNnxBlock(_NnxBlockBase):
+    pass
+
+
+class _NnxTiedBase(nnx.Module):
+    """Projection whose direction is a static (non-array) field: lives only in the treedef."""
+
+    def __init__(self, w, *, transpose: bool, scale: float = 1.0):
+        self.w = nnx.Param(jnp.asarray(w))
+        self.transpose = transpose
+        self.scale = scale
+
+    def __call__(self, x):
+        w = self.w.value.T if self.transpose else self.w.value
+        return (x @ w) * self.scale
+
+
+@onnx_function(unique=True)
+class DNnxTiedUnique(_NnxTiedBase):
+    pass
+
+
+@onnx_function
+class DNnxTied(_NnxTiedBase):
+    pass
+
+
+class PNnxTied(_NnxTiedBase):
     pass
 
 
@@ -241,6 +277,17 @@ def programs(dec: bool) -> dict[str, dict]:
     P["nnx_blocks_equal_seeds"] = {"fn": lambda x: n1(x) - n1b(x) + n1(x * 2.0), "shapes": X}
     nb_nobias = NB(4, 4, rngs=nnx.Rngs(0), use_bias=False)
     P["nnx_blocks_structure_differs"] = {"fn": lambda x: n1(x) - nb_nobias(x), "shapes": X}
+    DS = late("f_dtype_specific", "p_dtype_specific")
+    P["same_fn_float_and_int_operands"] = {"fn": lambda i, x: DS(x) + DS(i).astype(x.dtype), "shapes": [(3, 4), (3, 4)], "dtypes": [np.int32, np.float32]}
+    TU = DNnxTiedUnique if dec else PNnxTied
+    TN = DNnxTied if dec else PNnxTied
+    W_T = (np.arange(16, dtype=np.float32).reshape(4, 4) - 6.0) / 9.0
+    tu1, tu2 = TU(W_T, transpose=False), TU(W_T, transpose=True)
+    P["unique_module_static_field_differs_equal_weights"] = {"fn": lambda x: tu2(tu1(x)), "shapes": X}
+    tu3, tu4 = TU(W_T, transpose=False, scale=1.0), TU(W_T, transpose=False, scale=-2.0)
+    P["unique_module_static_scale_differs_equal_weights"] = {"fn": lambda x: tu3(x) + tu4(x), "shapes": X}
+    tn1, tn2 = TN(W_T, transpose=False), TN(W_T, transpose=True)
+    P["module_static_field_differs_equal_weights"] = {"fn": lambda x: tn2(tn1(x)), "shapes": X}
     st = NS(rngs=nnx.Rngs(2))
     P["nnx_nested_modules"] = {"fn": lambda x: st(x) * 0.5, "shapes": X}
     P["function_and_module_mixed"] = {"fn": lambda x: S(n1(x)) + a1(x), "shapes": X}
